@@ -117,6 +117,7 @@ func main() {
 	dump := flag.String("dump", "", "dump SSA of functions matching regexp and exit")
 	sweepPk := flag.String("sweep", "", "debug: sweep this package pattern")
 	flag.Parse()
+	currentProp = *prop
 	t0 := time.Now()
 	debug.SetGCPercent(800) // term DAGs are long-lived; collect rarely
 	if pf := os.Getenv("VERIF_PROF"); pf != "" {
